@@ -21,7 +21,7 @@ class GenerateScenarioModel(Contract):
 
     def havoc(self, I, S):
         I.ext_state["generate_called_with"] = S.a["kwargs"]
-        return Opaque("generated scenario")
+        return I.ext_state.get("toplevel_scenario") or Opaque("generated scenario")
 
 
 @contract
@@ -70,3 +70,93 @@ class MakeBenchmarkScenario(Contract):
         out.append(("C14.unseeded-call-does-not-reseed", same(kw["seed"], seed)))
         out.append(("C19.no-stale-seed-left", same(S.extra["params"].d.get("seed"), seed)))
         return out
+
+
+# ---------------------------------------------------------------------------- nasim.make_benchmark / load / generate
+
+@contract
+class LoadScenarioModel(Contract):
+    """call-site model of load_scenario(path, name): some scenario (the loader itself is covered by C17 / C18)"""
+    qualname = Q + "load_scenario"
+    verify = False
+    tags = {"": ("C12", "C10")}
+
+    def bind(self, I, fi, args, kwargs):
+        return Scope(a={"args": list(args), "kwargs": dict(kwargs)})
+
+    def havoc(self, I, S):
+        return I.ext_state.get("toplevel_scenario") or Opaque("loaded scenario")
+
+
+class _TopLevel(Contract):
+    """the three public constructors hand the mode switches to NASimEnv unchanged: the environment they return is in
+    the observability / action / observation mode the caller asked for"""
+    callable_by_contract = False
+    bounded = False
+    global_writes_allowed = ("nasim.envs.host_vector.HostVector",)
+    tags = {"": ("C12", "C10", "C19")}
+    first_args = ()
+
+    def setup(self, I, variant):
+        from . import vocab as V
+        from .c_action import sig_setup, inf_setup
+        from .c_layout import havoc_class_state
+        sig = sig_setup(I)
+        inf_setup(I, sig)
+        st = havoc_class_state(I)
+        st["address_space_bounds"] = (SymV(z3.Int("prevB0"), "int"), SymV(z3.Int("prevB1"), "int"))
+        sc = sig.scenario_obj(I)
+        I.ext_state["toplevel_scenario"] = sc
+        m = I.repo.module("nasim.scenarios.benchmark.generated")
+        reg = I.module_global(m, "AVAIL_GEN_BENCHMARKS")
+        for d in [reg] + list(reg.d.values()):
+            d.fresh = False
+        modes = {k: SymV(z3.Bool("arg_" + k), "bool") for k in ("fully_obs", "flat_actions", "flat_obs")}
+        S = Scope(sig=sig)
+        S.extra.update(modes=modes, scenario=sc, reg=reg)
+        S.a = {}
+        S.call_args = (list(self.first_args), dict(modes))
+        return S
+
+    def modifies(self, I, S):
+        return list(S.extra["reg"].d.values())
+
+    def ensures(self, I, S):
+        from pyvc.values import bval
+        env = S.result
+        ok = isinstance(env, Obj) and env.cls.name in ("NASimEnv", "NASimGymEnv")
+        out = [("C12.returns-environment", z3.BoolVal(ok))]
+        if not ok:
+            return out
+        f = env.fields
+
+        def same(a, b):
+            if isinstance(a, bool) or a is None:
+                return z3.BoolVal(False)
+            return bval(a) == bval(b)
+        out.append(("C12.mode-flags-are-the-callers", z3.And(*[same(f.get(k), v) for k, v in S.extra["modes"].items()])))
+        out.append(("C12.environment-of-that-scenario", z3.BoolVal(f.get("scenario") is S.extra["scenario"])))
+        sp = f.get("action_space")
+        kind = sp.cls.name if isinstance(sp, Obj) else None
+        fa = bval(S.extra["modes"]["flat_actions"])
+        out.append(("C10.action-space-kind", z3.BoolVal(False) if kind not in ("FlatActionSpace", "ParameterisedActionSpace")
+                    else (fa if kind == "FlatActionSpace" else z3.Not(fa))))
+        return out
+
+
+@contract
+class TopMakeBenchmark(_TopLevel):
+    qualname = "nasim.make_benchmark"
+    first_args = ("small-gen",)
+
+
+@contract
+class TopLoad(_TopLevel):
+    qualname = "nasim.load"
+    first_args = ("some/path.yaml",)
+
+
+@contract
+class TopGenerate(_TopLevel):
+    qualname = "nasim.generate"
+    first_args = (8, 3)
